@@ -231,11 +231,13 @@ package table
 // (vocabulary of the multipath clauses; pinned here to "the equal-cost multipath set": two routes are of equal cost
 // only if they agree in LOCAL_PREF, AS_PATH length, ORIGIN and MED - a missing MED counting as 0, as in the
 // decision process)
-//@   claims at-return
+//@   claims at-return at-call
 //@   at-return requires ret0 == 0 ==> m1 == m2 && o1 == o2 && l1 == l2 && lp1 == lp2
 // ... and in being LLGR-stale or not: "not LLGR-stale" is the first step of the decision process, a stale route is
 // never of equal cost with a fresh best path
-//@   at-return requires ret0 == 0 ==> lhs.IsLLGRStale() == rhs.IsLLGRStale()
+//@   at-return requires ret0 == 0 ==> lStale == rStale
+//@   at-call lhs.IsLLGRStale() requires true
+//@   at-call rhs.IsLLGRStale() requires true
 
 // pairwise sortedness by the statement's order
 //@ spec sortedList(l []*Path) bool = forall i int, j int :: 0 <= i && i < j && j < len(l) ==> specPref(l[i], l[j])
